@@ -152,17 +152,21 @@ def gen_api_history(seed, nops=30, malformed=0.25, with_io=None, caller_mut=0.0,
             ns = (S.nabf() if S.arate else 0) if S.chs else r.choice([0, 0, S.nabf() if S.arate else 0])
             if not S.chs and ns and (r.random() < 0.7 or malformed == 0.0): ns = 0
             if bad:
-                dev = r.choice(["fewpt", "morept", "rename", "dup", "empty", "fewch", "morech", "nsub", "swap"])
-                g.count("dev_" + dev)
-                if dev == "fewpt" and pn: pn.pop(r.randrange(len(pn)))
-                elif dev == "morept": pn.append(g.simple_name(b"Q"))
-                elif dev == "rename" and pn: pn[r.randrange(len(pn))] = g.simple_name(b"R")
-                elif dev == "dup" and pn: pn[r.randrange(len(pn))] = pn[0]
-                elif dev == "empty": pn, cn, ns = [], [], 0
-                elif dev == "fewch" and cn: cn.pop()
-                elif dev == "morech": cn.append(g.simple_name(b"D")); ns = max(ns, 1)
-                elif dev == "nsub": ns = r.choice([0, ns + 1, max(ns - 1, 0)])
-                elif dev == "swap" and len(pn) > 1: pn[0], pn[1] = pn[1], pn[0]
+                # one deviation, sometimes two at once (e.g. an undeclared point AND a channel too many: the call is refused by a
+                # LATER guard than the one the first deviation passes)
+                kinds = ["fewpt", "morept", "rename", "dup", "empty", "fewch", "morech", "nsub", "swap"]
+                devs = [r.choice(kinds)] + ([r.choice(kinds)] if r.random() < 0.3 else [])
+                for dev in devs:
+                    g.count("dev_" + dev)
+                    if dev == "fewpt" and pn: pn.pop(r.randrange(len(pn)))
+                    elif dev == "morept": pn.append(g.simple_name(b"Q"))
+                    elif dev == "rename" and pn: pn[r.randrange(len(pn))] = g.simple_name(b"R")
+                    elif dev == "dup" and pn: pn[r.randrange(len(pn))] = pn[0]
+                    elif dev == "empty": pn, cn, ns = [], [], 0
+                    elif dev == "fewch" and cn: cn.pop()
+                    elif dev == "morech": cn.append(g.simple_name(b"D")); ns = max(ns, 1)
+                    elif dev == "nsub": ns = r.choice([0, ns + 1, max(ns - 1, 0)])
+                    elif dev == "swap" and len(pn) > 1: pn[0], pn[1] = pn[1], pn[0]
             if ns == 0: cn_eff = []
             else: cn_eff = cn
             p, s_ = frame_spec(g, pn, cn_eff, ns)
